@@ -30,6 +30,9 @@ pub enum Mode {
     /// no query at all: a 16-entry std HashMap is filled on the SUT thread and its iteration order
     /// delivered (measures whether two key blocks really give different hash orders)
     HashProbe,
+    /// no sqlgrep code at all: plain std file / stdout / HashMap operations on the SUT thread, used by
+    /// the start-up self check to see that std still reaches the kernel through the seam
+    SeamProbe,
 }
 
 #[derive(Clone, Debug)]
@@ -215,6 +218,25 @@ fn setup(spec: &WorldSpec) -> Result<(Tables, Statement), String> {
 
 fn drive(spec: &WorldSpec, running: Arc<AtomicBool>) -> DriverOut {
     let mut out = DriverOut { status: Status::Ok, total_lines: 0, total_result_rows: 0 };
+    if spec.mode == Mode::SeamProbe {
+        use std::io::{BufRead, Read};
+        let m: std::collections::HashMap<u8, u8> = std::collections::HashMap::new();
+        drop(m);
+        if let Ok(file) = File::open(&spec.files[0].0) {
+            let mut reader = BufReader::with_capacity(8, file);
+            let _ = reader.seek(SeekFrom::End(0));
+            let _ = reader.seek(SeekFrom::Start(0));
+            let mut first = String::new();
+            let _ = reader.read_line(&mut first);
+            seam::with_world(|w| w.on_deliver(first.as_bytes()));
+            let mut rest = Vec::new();
+            let _ = reader.read_to_end(&mut rest);
+            seam::with_world(|w| w.on_deliver(&rest));
+        }
+        println!("probe");
+        let _ = std::io::stdout().flush();
+        return out;
+    }
     if spec.mode == Mode::HashProbe {
         let mut m = std::collections::HashMap::new();
         for i in 0..16u8 {
@@ -310,7 +332,7 @@ fn drive(spec: &WorldSpec, running: Arc<AtomicBool>) -> DriverOut {
                     seam::with_world(|w| w.on_deliver(item.as_bytes()));
                 }
             }
-            Mode::HashProbe => {}
+            Mode::HashProbe | Mode::SeamProbe => {}
             Mode::Engine => {
                 let mut engine = ExecutionEngine::new(&tables, &statement);
                 if engine.is_join() {
